@@ -1,6 +1,7 @@
 """EV for C02: generated and erased Java programs -> real JavaTranslator -> files laid out as the driver does -> real javac, alone
 and in TLC-chosen batches; javac's output is attributed to files by the real JavaCompiler.analyze_compiler_output."""
 import json
+import re
 import os
 import shutil
 import subprocess
@@ -45,6 +46,9 @@ def main():
         inv = {path: f for path, f in zip(files, batch)}
         res = {"batch": batch, "failed": sorted({inv.get(x, 0) for x in (failed or {})}), "crash": bool(comp.crash_msg), "rc": p.returncode,
                "out": p.stdout[:600] if (failed or comp.crash_msg or p.returncode) else ""}
+        if res["out"]:
+            # the generic class / interface headers of the batch (for the known-finding shape that names a type variable)
+            res["headers"] = sorted({m.group(0)[:400] for f in batch for m in re.finditer(r"(?m)^.*\b(?:class|interface)\s+\w+<[^{]*", texts[f - 1][1])})[:60]
         shutil.rmtree(os.path.join(root, "b%d" % k), ignore_errors=True)
         return res
     n = len(texts)
